@@ -27,6 +27,14 @@ on).  In half of the runs application code that runs inside responders and insid
 protocol (the rest of the delivery being worked through - deliveries routinely carry several boxes - stays buffered inside the
 protocol) or pauses / resumes the companion peer's protocol; the schedule also pauses between deliveries and resumes later, in any
 order with everything else, including loss while paused.
+Exception subclasses: responders also fail with instances of SUBCLASSES of the exception classes the commands declare (subclass of
+a declared error, of a declared fatal error, of an error only some commands of the inheritance families declare) - at once, through
+a late Deferred, and when refusing the Switch.
+Callers that give up: in half of the runs callers abandon outstanding calls - cancel() on the callRemote Deferred between
+deliveries or from inside another call's result callback (also one that runs because of the disconnect), or addTimeout(t, clock)
+on the Deferred with the simulated clock advanced by the schedule.  AMP has no cancel message: the peer answers (or error-answers)
+such a call like any other, at once or late, while other calls of both sides are outstanding, possibly in the same delivery as
+their answers, or never (connection lost first).
 
 Oracle = wire-level reference model, independent of amp.py: the byte streams
 each peer wrote / was delivered are parsed with an own 20-line box parser.
@@ -62,6 +70,13 @@ still sit in S's buffer: no verdict on whether S has acted on them yet (if it ha
 resumeProducing() has returned (and no callback paused S again meanwhile) the full equivalence above holds again: everything
 delivered has been acted on.  If S loses the connection while paused, a call whose reply is among the buffered boxes must have
 fired exactly once, with that reply or with the loss reason (the statement does not say which).
+Exception subclasses: an instance of a subclass is an instance of the declared class, so the reply must carry the code the command
+declares for that base (UNKNOWN where the command declares no base of it) and the caller sees the declared class.
+Given-up calls: the statement does not say what a Deferred fires with that its own caller cancelled / timed out, so for such a call
+only "at most once" (and "once" at the end of the run) is demanded, and nothing about its value.  The peer's reply to it is ordinary
+traffic from a correct peer: every clause about all OTHER calls of both sides (own answer once the reply is delivered, pending
+until then while the connection is up, loss reason at disconnect), about responders and about the protocol not raising out of
+dataReceived / connectionLost / resumeProducing stays in force while and after that reply is delivered.
 """
 from twisted.internet import defer, error, protocol
 from twisted.protocols import amp
@@ -86,7 +101,9 @@ RULE = ("run = up to 60 tape-chosen operations (callRemote from either peer, fir
         "tape-chosen operation index (accepted or refused by the responder), then a final drop; commands include two inheritance "
         "families with added / code-reusing error declarations and responders raising every exception class of the scenario; in half "
         "of the runs application-level pauseProducing/resumeProducing of either peer's protocol from responders, result callbacks and "
-        "between deliveries; non-trivial = at least one call was "
+        "between deliveries; responders also raise subclasses of declared exception classes; in half of the runs callers give up on "
+        "outstanding calls (cancel() between deliveries / inside result callbacks, addTimeout on the simulated clock) and the peer "
+        "answers them anyway; non-trivial = at least one call was "
         "unanswered at disconnect AND at least one call was answered AND (a responder answered late or with an error)")
 SELF_RESUME_P = 0.0   # share of the in-callback pauses of the OWN protocol that are followed by resumeProducing() in the very same
                       # callback (i.e. from inside that protocol's dataReceived); see ASSUMPTIONS
@@ -99,7 +116,12 @@ ASSUMPTIONS = ["callers attach a callback that handles every result (no unhandle
                "nested call re-parses the strings the outer loop has already handed out - responders run twice, answers arrive twice; "
                "reported as an observation on protocols/basic.py, outside this property's statement)",
                "no verdict on whether a paused protocol acts on boxes it already holds, nor on reply-or-loss-reason for such boxes at "
-               "disconnect"]
+               "disconnect",
+               "exception subclasses used by responders derive from exactly one declared class (no verdict would be given for an "
+               "exception that is an instance of two declared classes with different codes)",
+               "no verdict on the result of a call its own caller cancelled or timed out while it was outstanding (beyond firing once); "
+               "the Switch call is never given up on; a result produced by the caller's own cancel/timeout is no occasion for "
+               "application flow control"]
 
 
 class DeclaredErr(Exception):
@@ -119,6 +141,21 @@ class ExtraErr(Exception):        # declared only by some commands of the inheri
 
 
 class AltErr(Exception):          # likewise; where declared, under a wire code another command uses for another exception
+    pass
+
+
+# What responders really raise is often not literally the class a command declares but a SUBCLASS of it (declare LookupError, a dict
+# lookup raises KeyError; declare the application's base error, raise a specific one).  An instance of a subclass IS an instance of
+# the declared class, so for the command it is a declared error - under the code, and with the fatality, of the class it derives from.
+class DeclaredSub(DeclaredErr):
+    pass
+
+
+class FatalSub(FatalErr):
+    pass
+
+
+class ExtraSub(ExtraErr):         # declared (through its base) only where ExtraErr is; undeclared for every other command
     pass
 
 
@@ -201,12 +238,19 @@ DECLARED["EchoPlusFatal"][ExtraErr] = b"EXTRA"
 DECLARED["EchoPlusFatal"][AltErr] = b"ALTFATAL"
 DECLARED["TwiceSub"][AltErr] = b"EXTRA"
 DECLARED["TwiceSub"][ExtraErr] = b"DECL"
-RAISES = {"declared": DeclaredErr, "fatal": FatalErr, "undeclared": Undeclared, "extra": ExtraErr, "alt": AltErr}
+RAISES = {"declared": DeclaredErr, "fatal": FatalErr, "undeclared": Undeclared, "extra": ExtraErr, "alt": AltErr,
+          "declared_sub": DeclaredSub, "fatal_sub": FatalSub, "extra_sub": ExtraSub}
+SUBCLASS_KINDS = ("declared_sub", "fatal_sub", "extra_sub")
 
 
 def wire_code(cmd, kind):
-    """The error code the responder side must put on the wire when a responder of `cmd` fails with RAISES[kind]."""
-    return DECLARED[cmd].get(RAISES[kind], b"UNKNOWN")
+    """The error code the responder side must put on the wire when a responder of `cmd` fails with RAISES[kind]: the code `cmd`
+    declares for a class the raised exception is an instance of (the class itself or a base of it), else UNKNOWN.  None = no verdict
+    (the exception is an instance of two declared classes with different codes; does not occur with the classes above)."""
+    codes = sorted({code for klass, code in DECLARED[cmd].items() if issubclass(RAISES[kind], klass)})
+    if not codes:
+        return b"UNKNOWN"
+    return codes[0] if len(codes) == 1 else None
 
 
 def error_classes(cmd, code):
@@ -266,6 +310,8 @@ class Call:
         self.n, self.cmd, self.side, self.after_loss, self.fill = n, cmd, side, after_loss, fill
         self.results = []
         self.d = None
+        self.gaveup = ""        # "cancel" / "timeout": the CALLER gave up on the call while it was outstanding
+        self.late_seen = False
 
 
 class Inner(protocol.Protocol):
@@ -442,6 +488,9 @@ class Harness:
         if kind in ("extra", "alt"):
             self.sim.probe("raised_family_error_declared_by_this_command" if RAISES[kind] in DECLARED[cmd]
                            else "raised_family_error_declared_only_by_related_command")
+        if kind in SUBCLASS_KINDS:
+            self.sim.fault("responder_raised_subclass_of_declared_error" if wire_code(cmd, kind) != b"UNKNOWN"
+                           else "responder_raised_subclass_of_error_this_command_does_not_declare")
         return Failure(RAISES[kind]("%s n=%d" % (kind, n)))
 
     def respond(self, side, cmd, n, fill):
@@ -459,7 +508,8 @@ class Harness:
                 sim.fault("note_responder_raises")
                 raise Undeclared("note n=%d" % n)
             return {}
-        kind = sim.draw_weighted([("ok", 18), ("later", 12), ("declared", 4), ("undeclared", 2), ("fatal", 2), ("extra", 1), ("alt", 1)], "resp")
+        kind = sim.draw_weighted([("ok", 18), ("later", 12), ("declared", 4), ("undeclared", 2), ("fatal", 2), ("extra", 1), ("alt", 1),
+                                  ("declared_sub", 3), ("fatal_sub", 1), ("extra_sub", 1)], "resp")
         sim.event("respond", side, cmd, n, kind)
         if kind == "later":
             d = defer.Deferred()
@@ -484,19 +534,22 @@ class Harness:
     def respond_switch(self, side, n):
         sim = self.sim
         self.invoked[(side, n)] = self.invoked.get((side, n), 0) + 1
-        kind = sim.draw_weighted([("ok", 5), ("declared", 1)], "switch_resp")
+        kind = sim.draw_weighted([("ok", 5), ("declared", 1), ("declared_sub", 1)], "switch_resp")
         sim.event("respond", side, "Switch", n, kind)
         self.decision[(side, n)] = kind
         if kind != "ok":
             self.flags["err"] += 1
-            raise DeclaredErr("declared n=%d" % n)
+            if kind in SUBCLASS_KINDS:
+                sim.fault("responder_raised_subclass_of_declared_error")
+            raise RAISES[kind]("%s n=%d" % (kind, n))
         self.nocall[side] = True        # amp writes the acknowledgement, then locks and switches this side
         return Inner(self, side)
 
     def fire_late(self):
         sim = self.sim
         side, n, cmd, fill, d = self.late.pop(sim.draw_int(0, len(self.late) - 1, "which_late"))
-        kind = sim.draw_weighted([("ok", 12), ("declared", 4), ("undeclared", 2), ("fatal", 2), ("extra", 1), ("alt", 1)], "late_resp")
+        kind = sim.draw_weighted([("ok", 12), ("declared", 4), ("undeclared", 2), ("fatal", 2), ("extra", 1), ("alt", 1),
+                                  ("declared_sub", 3), ("fatal_sub", 1), ("extra_sub", 1)], "late_resp")
         sim.event("fire_late", side, cmd, n, kind)
         self.decision[(side, n)] = kind
         if kind != "ok":
@@ -516,8 +569,9 @@ def run(sim):
     sw_side = sim.draw_choice(["", "", "", "", "", "", "", "A", "B"], "switch_side")
     sw_at = sim.draw_int(1, max(1, (2 * nops) // 3), "switch_at") if sw_side else -1
     pause_p = sim.draw_choice([0.0, 0.0, 0.12, 0.35], "app_pause")
+    giveup = sim.draw_choice([0.0, 0.0, 0.1, 0.3], "giveup")
     sim.config = {"nops": nops, "fault_rate": fault_rate, "reentrancy": reent, "switch": sw_side, "switch_at": sw_at,
-                  "app_pause": pause_p}
+                  "app_pause": pause_p, "giveup": giveup}
     h = Harness(sim)
     h.pause_p = pause_p
     peers = {"A": make_peer(h, "A"), "B": make_peer(h, "B")}
@@ -555,9 +609,45 @@ def run(sim):
                 do_call(call.side)
             finally:
                 depth[0] -= 1
-        if h.lost[call.side] is None:
-            h.app_flow(call.side, "callback")       # (a result produced by the loss itself is no occasion for flow control)
+        if giveup and depth[0] < 2 and outstanding() and sim.draw_bool(giveup / 2, "cancel_in_callback"):
+            depth[0] += 1
+            try:
+                do_cancel("in_callback")
+            finally:
+                depth[0] -= 1
+        if h.lost[call.side] is None and not call.gaveup:
+            # (a result produced by the loss itself, or by the caller's own cancel / timeout, is no occasion for flow control)
+            h.app_flow(call.side, "callback")
         return None
+
+    def outstanding():
+        """Calls the application may give up on: issued while the connection was up, not fired yet (the Switch call is left alone)."""
+        return [c for s in "AB" for c in h.calls[s] if c.d is not None and not c.results and not c.gaveup and c.cmd != "Switch"]
+
+    def others_outstanding(c):
+        return any(x is not c and x.d is not None and not x.results and h.lost[x.side] is None for x in h.calls[c.side])
+
+    def do_cancel(where):
+        cands = outstanding()
+        c = cands[sim.draw_int(0, len(cands) - 1, "which_cancel")]
+        c.gaveup = "cancel"
+        sim.event("cancel", c.side, c.cmd, c.n, where)
+        sim.fault("caller_cancelled_outstanding_call_" + where)
+        if h.lost[c.side] is None and others_outstanding(c):
+            sim.probe("caller_gave_up_with_other_calls_outstanding")
+        with sim.guard("cancel-raised", c.cmd):
+            c.d.cancel()
+
+    def on_timeout(res, timeout, c):
+        # Deferred.addTimeout's hook: runs when the timeout (not anything else) has cancelled the call
+        c.gaveup = "timeout"
+        sim.event("timeout", c.side, c.cmd, c.n)
+        sim.fault("caller_timed_out_outstanding_call")
+        if h.lost[c.side] is None and others_outstanding(c):
+            sim.probe("caller_gave_up_with_other_calls_outstanding")
+        if isinstance(res, Failure) and res.check(defer.CancelledError):
+            return Failure(defer.TimeoutError("n=%d timed out" % c.n))
+        return res
 
     def can_call(side):
         return not (h.nocall[side] and h.lost[side] is None)
@@ -594,6 +684,10 @@ def run(sim):
             return
         sim.check("returns-deferred", isinstance(d, defer.Deferred), cmd, "callRemote returned a %s" % type(d).__name__)
         c.d = d
+        if giveup and not after_loss and isinstance(d, defer.Deferred) and sim.draw_bool(giveup, "with_timeout"):
+            # the realistic way of giving up: the caller bounds the wait
+            d.addTimeout(sim.draw_choice([1, 2, 5], "timeout"), sim.clock,
+                         onTimeoutCancel=lambda res, timeout, c=c: on_timeout(res, timeout, c))
         d.addBoth(on_result, c)
         if after_loss:
             sim.probe("call_after_loss")
@@ -656,7 +750,7 @@ def run(sim):
                     good = dec == "ok"
                 else:
                     # the code this command declares for what the responder raised (own and inherited declarations only), else UNKNOWN
-                    good = dec in RAISES and b.get(b"_error_code") == wire_code(q.cmd, dec)
+                    good = dec in RAISES and wire_code(q.cmd, dec) in (None, b.get(b"_error_code"))
                 sim.check("reply-matches-responder", good, "responder",
                           lambda: "side %s n=%d (%s) responder chose %r but box is %r" % (s, n, q.cmd, dec, b))
             # --- responder invocations
@@ -688,6 +782,17 @@ def run(sim):
                     continue
                 fired = bool(c.results)
                 r = c.results[0] if fired else None
+                if c.gaveup:
+                    # the caller itself cancelled the call / let it time out while it was outstanding.  The statement does not speak
+                    # about what such a Deferred fires with: only "exactly once" is demanded of it (at-most-once above, once at the end
+                    # of the run).  The peer cannot know and answers anyway; that answer is ordinary traffic of the connection - every
+                    # clause about the OTHER calls of both sides, the responders and the protocol not raising stays in force.
+                    if c.n in answered and c.n not in waiting and not c.late_seen:
+                        c.late_seen = True
+                        sim.probe("reply_arrived_for_call_the_caller_gave_up_on")
+                        if lost is None and others_outstanding(c):
+                            sim.probe("reply_for_given_up_call_arrived_with_other_calls_outstanding")
+                    continue
                 if c.n in waiting:
                     # reply received while s's protocol is paused by the application: it must fire (with this reply) once s is
                     # resumed; if the connection is lost before that, either this reply or the loss reason
@@ -738,6 +843,8 @@ def run(sim):
                ("late", 10 if h.late else 0),
                ("apppause", 2 if pause_p and any(h.lost[s] is None and not h.paused[s] for s in "AB") else 0),
                ("appresume", 12 if any(h.lost[s] is None and h.paused[s] for s in "AB") else 0),
+               ("cancel", (2 if giveup < 0.2 else 5) if giveup and outstanding() else 0),
+               ("tick", 5 if giveup and sim.clock.pending() else 0),
                ("cutdrop", fault_rate if live else 0),
                ("drop", fault_rate if live else 0),
                ("close", fault_rate if live else 0),
@@ -769,6 +876,13 @@ def run(sim):
             h.pause(sim.draw_choice([s for s in "AB" if h.lost[s] is None and not h.paused[s]], "pause_side"), "between_deliveries")
         elif op == "appresume":
             h.resume(sim.draw_choice([s for s in "AB" if h.lost[s] is None and h.paused[s]], "resume_side"), "later")
+        elif op == "cancel":
+            do_cancel("between_deliveries")
+        elif op == "tick":
+            # time passes: the earliest of the callers' timeouts expires
+            sim.event("tick")
+            with sim.guard("timeout-raised", "tick"):
+                sim.clock.run_next()
         elif op == "cutdrop":
             # connection loss at an exact byte boundary of one direction
             to = sim.draw_choice(["A", "B"], "cut_dir")
@@ -878,6 +992,11 @@ MUTANTS = [
     "(responder-ran-once, answered-call-fired)",
     "basic.py IntNStringReceiver.dataReceived: a pause issued while resumeProducing() drains the buffer is ignored -> survives by design "
     "(no verdict on a paused protocol acting on boxes it already holds)",
+    "seeded/C31-r5b (checkKnownErrors looks the failure's exact class up in allErrors) -> missed while responders raised only the "
+    "literally declared classes; now caught (reply-matches-responder) with responders raising subclasses of declared classes",
+    "seeded/C31-r5a (_sendBoxCommand: canceller that forgets the tag; the late answer then raises KeyError) -> missed while no caller "
+    "ever gave up on a call; now caught (protocol-raised:net:KeyError, protocol-raised:resumeProducing:KeyError, and "
+    "protocol-raised:net:AlreadyCalledError when a result callback running inside failAllOutgoing cancels another outstanding call)",
     "re-run with the Switch workload: failAllOutgoing errback skipped, _nextTag % 4, fresh loss reason, dispatchCommand twice, "
     "_answerReceived without pop -> all still caught with the clauses listed above",
 ]
